@@ -16,6 +16,7 @@ value    := null | int | float | bool | str | {"date": "YYYY-MM-DD"} | {"datetim
 from __future__ import annotations
 
 import datetime as _dt
+import json
 import decimal as _decimal
 import os
 import sys
@@ -31,7 +32,7 @@ import sqlalchemy as sqa  # noqa: E402
 import pydiverse.transform as pdt  # noqa: E402
 from pydiverse.transform._internal import errors as pdt_errors  # noqa: E402
 from pydiverse.transform._internal.ops import ops  # noqa: E402
-from pydiverse.transform._internal.tree.col_expr import CaseExpr, ColFn  # noqa: E402
+from pydiverse.transform._internal.tree.col_expr import CaseExpr, ColExpr, ColFn  # noqa: E402
 
 from . import realtypes  # noqa: E402
 
@@ -88,6 +89,17 @@ def exc_class(e: BaseException) -> str:
     return type(e).__name__
 
 
+import operator as _operator
+
+_PY_OPERATORS = {
+    "add": (2, _operator.add), "sub": (2, _operator.sub), "mul": (2, _operator.mul), "truediv": (2, _operator.truediv),
+    "floordiv": (2, _operator.floordiv), "mod": (2, _operator.mod), "pow": (2, _operator.pow), "neg": (1, _operator.neg), "pos": (1, _operator.pos),
+    "bool_and": (2, _operator.and_), "bool_or": (2, _operator.or_), "bool_xor": (2, _operator.xor), "bool_invert": (1, _operator.invert),
+    "equal": (2, _operator.eq), "not_equal": (2, _operator.ne), "less_than": (2, _operator.lt), "less_equal": (2, _operator.le),
+    "greater_than": (2, _operator.gt), "greater_equal": (2, _operator.ge),
+}
+
+
 class Env:
     def __init__(self, prog: dict, backend: str):
         self.prog = prog
@@ -137,6 +149,19 @@ class Env:
                     if j.get(k) is not None:
                         kw[k] = [self.expr(x) for x in j[k]]
                 args = [self.expr(a) for a in j.get("args", [])]
+                # the operators are also spelled the way users write them: `a + b`, `1 - t.x` (the reflected methods), `-x`, `~p`, `a < b`
+                # - a deterministic half of the occurrences (the other half builds the node directly)
+                pyop = _PY_OPERATORS.get(j["fn"])
+                if pyop is not None and not kw and len(args) == pyop[0] and any(isinstance(a, ColExpr) for a in args):
+                    import zlib
+
+                    # (the choice depends on the operator and on the kinds of its operands, not on literal values: the same program
+                    #  text with another literal keeps its spelling)
+                    shape = [j["fn"]] + [sorted(a.keys())[0] if isinstance(a, dict) and a else "v" for a in j.get("args", [])]
+                    self._n_ops = getattr(self, "_n_ops", 0) + 1
+                    spell = j.get("spell") or ("op" if (zlib.crc32(json.dumps(shape).encode()) + self._n_ops) % 2 == 0 else "node")
+                    if spell == "op":
+                        return pyop[1](*args)
                 return ColFn(getattr(ops, j["fn"]), *args, **kw)
             if "case" in j:
                 from pydiverse.transform._internal.tree.col_expr import wrap_literals
